@@ -226,6 +226,22 @@ def check_schedule(ctx):
             ok = elt == '(_g0,_g1)' and [g for g in gens] == [(0, m), (0, m)]
     elif not bs:
         raise AnalysisError('mp_order: the dependency relation handed to add_edges_from is not a recognisable collection: `%s`' % U(D)[:100])
+    if len(bs) == 1 and not ok:
+        elt, gens, conds = bs[0].canon()
+        m = T(strip_wrappers(M))
+        # second spelling of the same relation: successors looked up through the tree adjacency
+        if elt == '((_g0_0,_g0_1),(_g0_1,_g1))' and gens == [(2, m), (0, 'self.tree.neighbors(_g0_1)')] and \
+                conds in (['_g1!=_g0_0'], ['_g0_0!=_g1']):
+            ok = True
+        elif gens == [(0, m), (0, m)] and elt == '(_g0,_g1)':
+            pass          # the all-pairs form with other conditions: wrong relation, reported below
+        elif any(isinstance(it, ast.Call) and isinstance(it.func, ast.Attribute) and it.func.attr == 'items' and
+                 isinstance(it.func.value, (ast.DictComp, ast.Dict)) for t_, it in bs[0].gens):
+            got = got + '  (a MAPPING keyed by one message: it keeps a single partner per key, all other prerequisites are lost)'
+        elif elt == '((_g0_0,_g0_1),(_g0_1,_g1))' and gens and gens[0] == (2, m):
+            pass          # the adjacency form with other conditions / another neighbour source: reported below
+        else:
+            raise AnalysisError('mp_order: dependency relation %s is in no recognised form (neither confirmed nor refuted)' % got)
     ctx.ob('schedule', fi, edges[0][0], ok,
            'message (a,b) must precede every (b,c) with c != a - and nothing else - : edge m1 -> m2 iff m1[1] == m2[0] and m1[0] != m2[1], '
            'for m1, m2 ranging over all messages; the source builds %s' % (got or '%d collections' % len(bs)),
